@@ -545,9 +545,17 @@ class World(BaseWorld):
             if exc is not None:
                 # solve raised inside the root finder: the fresh reference must do the same
                 Q = fresh_prism(hrec, step, site)
+                with warnings.catch_warnings():
+                    warnings.simplefilter('ignore')
+                    exact = self.inputs_identical(system.createPRISM(), Q)
                 outQ = self.do_solve(pp, Q, srQ, user, guess, idx)
                 if outQ[1] != type(exc).__name__:
-                    raise Violation('solve_outcome_differs_from_fresh_system', site, {'swept': type(exc).__name__, 'fresh': outQ[1]}, step)
+                    if exact:
+                        raise Violation('solve_outcome_differs_from_fresh_system', site, {'swept': type(exc).__name__, 'fresh': outQ[1]}, step)
+                    # wiring differs by rounding (e.g. dk-constructed Domain vs the (length, dr) reference): a diverging iteration may
+                    # blow up at a different step
+                    ctx.probe('wiring_differs_by_rounding')
+                    return None
                 ctx.probe('solve_raised_both')
                 return None
             self.check_wiring(pp, hrec, P, step, site)
